@@ -19,6 +19,7 @@ mod pcrep;
 mod pcchan;
 mod pcsize;
 mod pcmulti;
+mod pc14v;
 
 fn main() {
     explore::install_panic_hook();
@@ -37,9 +38,9 @@ fn main() {
         "C02" | "C07" | "C08" | "C09" | "C13" | "C20" => pcrep::run_emitted(ctx, Box::leak(id.clone().into_boxed_str())),
         "C03" => { pcrep::run_c03(ctx); pcrep::run_c03_ambient(ctx) }
         "C05" => pcrep::run_c05(ctx),
-        "C14" => pc01::run_c14(ctx),
+        "C14" => { pc01::run_c14(ctx); pc14v::run(ctx) }
         "C10" => { pc10::run(ctx); pcchan::run(ctx, "C10") }
-        "C11" => { pc11::run(ctx); pcrep::run_emitted(ctx, "C11"); pcmulti::unprotected_in_a_batch(ctx, "C11") }
+        "C11" => { pc11::run(ctx); pcrep::run_emitted(ctx, "C11"); pcmulti::unprotected_in_a_batch(ctx, "C11"); pcmulti::override_from_the_environment(ctx, "C11") }
         "C17" => { pc17::run(ctx); pc12::kth_candidate_crash_only(ctx, "C17"); pcmulti::unprotected_in_a_batch(ctx, "C17") }
         "C12" => pc12::run(ctx),
         "C15" => pc15::run(ctx),
